@@ -214,7 +214,7 @@ Definition infer_dtype (data : list scalar) : option dtype :=
   else if existsb is_int data then Some DInt
   else match data with [] => Some DFloat | _ => Some DBool end.
 
-(** np.iscomplexobj(x) — evaluated OUTSIDE the try block: a ragged nest raises ValueError *)
+(** np.iscomplexobj(x): a ragged nest raises ValueError (caught by compare_values' try block since 65b8c68) *)
 Definition iscomplexobj (x : tree) : res bool :=
   match nd_of x with
   | (Some dt, _) => Ok (dtype_eqb dt DCplx)
@@ -282,17 +282,22 @@ Definition cv_core {A} (close : A -> A -> bool) (neg : A -> A) (o : cvopts)
       end
   end.
 
-(** np.iscomplexobj(expected) or np.iscomplexobj(computed)   (short-circuit; both outside the try block) *)
+(** np.iscomplexobj(expected) or np.iscomplexobj(computed)   (short-circuit) *)
 Definition iscomplex_pair (e c : tree) : res bool :=
   bind (iscomplexobj e) (fun ce => if ce then Ok true else iscomplexobj c).
 
+(** since 65b8c68 the dtype choice sits inside the try block with the two casts: a ragged nest on either side
+    (np.iscomplexobj raises ValueError) is reported as "inputs not cast-able", verdict False *)
 Definition compare_values (o : cvopts) (e c : tree) : res bool :=
   if passnone o && is_py_none e && is_py_none c then Ok true
-  else bind (iscomplex_pair e c) (fun cx =>
-    if cx then
-      cv_core (isclose_c (atol o) (rtol o) (equal_nan o)) neg_c o (cast_with to_c e) (cast_with to_c c)
-    else
-      cv_core (isclose_f (atol o) (rtol o) (equal_nan o)) PrimFloat.opp o (cast_with to_f e) (cast_with to_f c)).
+  else match iscomplex_pair e c with
+       | Raise _ => Ok false
+       | Unmodelled => Unmodelled
+       | Ok true =>
+           cv_core (isclose_c (atol o) (rtol o) (equal_nan o)) neg_c o (cast_with to_c e) (cast_with to_c c)
+       | Ok false =>
+           cv_core (isclose_f (atol o) (rtol o) (equal_nan o)) PrimFloat.opp o (cast_with to_f e) (cast_with to_f c)
+       end.
 
 (* ------------------------------------------------------------------------------------------ *)
 (** * compare (exact) *)
